@@ -44,6 +44,7 @@ class Endpoint:
         self.adv = absn.Adversary()       # the peer's encoder when the peer is the harness
         self.adv_preface_sent = False
         self.hts_pending = []
+        self.noted_sets = 0       # SETTINGS frames still in the connection's buffer whose HEADER_TABLE_SIZE is already in hts_pending
         self.upgrade_header = None
 
     # -------------------------------------------------- public calls
@@ -121,7 +122,16 @@ class Endpoint:
 
     out_rng = None       # C21: when set (chunked replays), the output is taken with data_to_send(amount) in random amounts
 
+    def _held_sets(self):
+        buf = bytes(getattr(self.conn, '_data_to_send', b''))
+        if buf.startswith(wire.PREFACE):
+            buf = buf[len(wire.PREFACE):]
+        return [f for f in wire.split_frames(buf)[0] if f[0] == 4 and not (f[1] & 1)]
+
     def take_output(self):
+        if self.noted_sets:
+            # (a noted frame may have been discarded meanwhile: a received GOAWAY or clear_outbound_data_buffer empties the buffer)
+            self.noted_sets = min(self.noted_sets, len(self._held_sets()))
         if self.out_rng is None:
             data = self.conn.data_to_send()
         else:
@@ -144,9 +154,25 @@ class Endpoint:
         # frame it sees and starts using it when it acknowledges THAT frame (RFC 7540 6.5.3, RFC 7541 4.2)
         for f in frames:
             if f.get('t') == 'SET' and not f.get('ack'):
+                if self.noted_sets > 0:            # noted when the step that wrote it left it in the buffer
+                    self.noted_sets -= 1
+                    continue
                 v = [val for i, val in f['s'] if i == 1]
                 self.hts_pending.append(absn.u32(v[-1]) if v else None)
+        self.noted_sets = 0
         return data, frames
+
+    def note_held(self):
+        """A step left its output in the buffer (nf).  The harness peer acknowledges SETTINGS frames in the order the
+        connection wrote them (the specification's peer does: H2!Dispatch), so the HEADER_TABLE_SIZE of a SETTINGS frame that
+        is still waiting in the buffer is noted now, by looking at the buffer without taking anything."""
+        sets = self._held_sets()
+        self.noted_sets = min(self.noted_sets, len(sets))
+        for typ, fl, sid, payload in sets[self.noted_sets:]:
+            v = [int.from_bytes(payload[k + 2:k + 6], 'big') for k in range(0, len(payload) - len(payload) % 6, 6)
+                 if int.from_bytes(payload[k:k + 2], 'big') == 1]
+            self.hts_pending.append(v[-1] if v else None)
+        self.noted_sets = len(sets)
 
     def adversary_frame(self, f):
         is_ack = (f.get('t') == 'SET' and f.get('ack')) or (f.get('t') == 'RAW' and f.get('typ') == 4 and f.get('fl', 0) & 1 and f.get('len') == 0)
@@ -326,6 +352,8 @@ class Session:
         try:
             # nf: the application does not take the output after this step; it stays in the connection's buffer
             data, frames = (b'', []) if nf else ep.take_output()
+            if nf:
+                ep.note_held()
         except BaseException as e:   # harness-side failure is reported as an observation
             data, frames = b'', [{'t': 'HARNESS-ERROR', 'why': repr(e)}]
         if self.pair:
